@@ -1233,8 +1233,16 @@ def c05_drop(ctx):
     for f in [fn] + _children(ctx, fn.name):
         for bb, t in calls(f, 'alloc::boxed::Box::from_raw'):
             frees.append(f)
-    if frees and all(f.is_closure for f in frees) and len(frees) == len(syncs):
-        out.append(ok(R, 'Desync::drop|free-in-job', 'Box::from_raw happens once per branch, inside the closure run by the final sync', fn=fn.name))
+    # every final sync is handed a closure that frees the value (one closure per branch, or one closure built first and used by both)
+    free_closures = set(f.name for f in frees if f.is_closure)
+    jobs_ok = bool(syncs)
+    for bb, t in fn.calls():
+        if bb in syncs:
+            cl = [clean_ty(a['pl']['ty'])[9:-1] for a in t['args'] if a['k'] != 'const' and clean_ty(a['pl']['ty']).startswith('{closure:')]
+            if not cl or not any(c in free_closures or any(fc.startswith(c + '::') for fc in free_closures) for c in cl):
+                jobs_ok = False
+    if frees and all(f.is_closure for f in frees) and jobs_ok and len(frees) <= len(syncs):
+        out.append(ok(R, 'Desync::drop|free-in-job', 'Box::from_raw happens inside the closure run by the final sync of each branch', fn=fn.name))
     else:
         out.append(bad(R, 'Desync::drop|free-in-job', 'the value is not freed exactly once per branch inside the final queued job (frees: %d in %s, syncs: %d)' % (len(frees), sorted(set(short(f.name) for f in frees)), len(syncs)), fn=fn.name))
     return out
